@@ -333,16 +333,38 @@ func (c *Check) connUsesInbound(rule string) {
 		if fn == nil || len(fn.Params) < 2 {
 			continue
 		}
-		conn := fn.Params[1]
 		n := 0
-		for _, r := range *conn.Referrers() {
+		type use struct {
+			v ssa.Value
+			r ssa.Instruction
+		}
+		// uses of the parameter, followed into helpers that receive it
+		var uses []use
+		var collect func(v ssa.Value, depth int)
+		collect = func(v ssa.Value, depth int) {
+			for _, r := range *v.Referrers() {
+				if h := p.helperCallee(r); h != nil && depth < maxHelperDepth {
+					args := r.(*ssa.Call).Call.Args
+					for k, a := range args {
+						if a == v && k < len(h.Params) {
+							collect(h.Params[k], depth+1)
+						}
+					}
+					continue
+				}
+				uses = append(uses, use{v, r})
+			}
+		}
+		collect(fn.Params[1], 0)
+		for _, u := range uses {
+			r, conn := u.r, u.v
 			n++
 			switch x := r.(type) {
 			case ssa.CallInstruction:
 				cc := x.Common()
 				d := p.calleeDesc(x)
 				ok := false
-				if cc.IsInvoke() && cc.Value == ssa.Value(conn) {
+				if cc.IsInvoke() && cc.Value == conn {
 					switch cc.Method.Name() {
 					case "Close", "RemoteAddr", "LocalAddr":
 						ok = true
